@@ -301,7 +301,7 @@ func classFlagsN(c *Ctx, rule string) {
 		}
 		want1 := base + "[1:len(" + base + ")-1]"
 		wantInv := "(" + want1 + ")[0]=='^'"
-		if inv != wantInv && inv != want1+"[0]=='^'" {
+		if minParens(inv) != minParens(wantInv) {
 			bad = append(bad, "Inverted is "+abbreviate(inv)+", expected the test of the first character after the brackets ("+wantInv+")")
 		}
 		for _, f := range p[:i2].facts() {
